@@ -222,6 +222,30 @@ def gen_mpsc(count, seed, drops=False, first_id=2000, fam="mpsc"):
     return out
 
 
+def gen_scope(count, seed, first_id=3500):
+    """thread::scope with 1-2 scoped threads, ops inside the scope body and after it; thread-locals in
+    the scoped threads (their destructors may run after the scope has returned)."""
+    rng = random.Random(f"scope:{seed}")
+    out = []
+    alphabet = ["load", "store", "fadd", "yield", "tls_set", "tls_get", "lock", "unlock"]
+    for i in range(count):
+        n = rng.randint(2, 3)
+        env = Env(rng, nmutex=1, natom=1)
+        bodies = [gen_task(rng, alphabet, rng.randint(1, 3), env, {}) for _ in range(n)]
+        main = [op("scope_begin")]
+        for c in range(1, n):
+            main.append(op("sspawn", v=c))
+            if rng.random() < 0.5:
+                main += gen_task(rng, ["load", "store", "yield"], 1, env, {})
+        main.append(op("scope_end"))
+        main += bodies[0]
+        pr = prog(first_id + i, "scope", [main] + bodies[1:], nmutex=1, atomics=[0])
+        pr["tls_touch"] = [rng.choice([-1, 1]), -1]
+        pr["tls_yield"] = [rng.choice([0, 1]), 0]
+        out.append(pr)
+    return out
+
+
 def gen_bounds(count, seed, first_id=3000):
     """Bodies with known step counts under step bounds around them (both bound kinds)."""
     rng = random.Random(f"bounds:{seed}")
@@ -246,6 +270,8 @@ def gen_bounds(count, seed, first_id=3000):
 
 
 def family(fam, count, seed):
+    if fam == "scope":
+        return gen_scope(count, seed)
     if fam == "bounds":
         return gen_bounds(count, seed)
     if fam == "mpsc":
